@@ -508,6 +508,35 @@ func ruleCommitTreeIndexCursor(cx *Ctx) []Obligation {
 	if len(ms) == 0 {
 		return []Obligation{undecided(key, desc, "the Merkle routine's leaf-index parameter (a bit list indexed by the sibling loop) was not found")}
 	}
+	// wrappers that pass their own parameter on as the leaf index (an asserting wrapper around a flag-returning core)
+	for round := 0; round < 3; round++ {
+		for _, w := range P.ModuleFuncsSorted() {
+			for _, b := range w.Blocks {
+				for _, ins := range b.Instrs {
+					c, ok := ins.(*ssa.Call)
+					if !ok {
+						continue
+					}
+					for _, m := range ms {
+						if c.Common().StaticCallee() != m.fn || m.idx >= len(c.Common().Args) {
+							continue
+						}
+						if p, ok := stripCopies(c.Common().Args[m.idx]).(*ssa.Parameter); ok {
+							known := false
+							for _, k := range ms {
+								if k.fn == w {
+									known = true
+								}
+							}
+							if !known {
+								ms = append(ms, merkle{w, paramIndex(w, p)})
+							}
+						}
+					}
+				}
+			}
+		}
+	}
 	var obs []Obligation
 	found := 0
 	for _, caller := range P.ModuleFuncsSorted() {
